@@ -2,7 +2,7 @@
    length (any interleaving of AwaitReply / RollForward / RollBackward that a
    protocol-conforming server can emit), every schedule of recvLoop, the
    handlers and syncLoop. *)
-From V Require Import Lib.Base C21.Model C21.Proofs.
+From V Require Import Lib.Base C21.Model C21.Proofs C21.Stop C21.StopProofs.
 
 (* C21_callbacks: the callback log is, in order, exactly the roll-forward /
    roll-backward messages recvLoop has taken (each carrying its own point and
@@ -130,3 +130,151 @@ Example C21_pipeline_nonvacuous :
             /\ inflight s = [a; a] /\ hp s = HCb b /\ step 3 s (LCb b) = None
             /\ exists s', run 3 s [LApply a; LApply a; LCb b] = Some s' /\ cblog s' = [a; a; b].
 Proof. eexists. split; [vm_compute; reflexivity|]. repeat split. eexists. split; vm_compute; reflexivity. Qed.
+
+(* ======================= Stop(): "stopping the client ends the conversation cleanly" ==========
+   Extended LTS of Stop.v: base LTS + the engine's send side (queue of 80, token, batches,
+   queued transitions, segment hand-off) + Stop() statement by statement.  [limit] is the
+   EFFECTIVE PipelineLimit (NewClient replaces 0 by 75), hence 1 <= limit. *)
+
+(* the extension only adds guards: until readyForNextBlockChan is closed every step of the
+   extended LTS is a step of the base LTS (or leaves the base state alone), so every theorem
+   above holds of the extended system *)
+Theorem C21_stop_refines_base : forall limit s l s',
+  xstep limit s l = Some s' -> closed (k s') = false ->
+  b s' = b s \/ exists bl, l = XB bl /\ step limit (b s) bl = Some (b s').
+Proof. exact xstep_proj. Qed.
+
+(* C21_stop.  For every effective limit with limit + 1 <= 80 (the send queue always has room
+   for Done behind the at most [limit] queued RequestNext), every server budget (a server that
+   answers everything, or falls silent at the tip at any point), every schedule: a run in
+   which Stop() was called and no client-side label is enabled any more (a maximal run - the
+   only thing that could still happen is nothing, or the server volunteering another update)
+   has Stop returned, Protocol stopped, sendLoop / recvLoop / syncLoop gone.  If moreover the
+   run satisfies the side condition [side_ok] (when Done was enqueued the send queue was empty
+   and sendLoop was not inside a batch - the negation is known finding
+   done-sent-without-agency; when WaitSendQueueDrained reported "drained" sendLoop had handed
+   its segment over - the negation is the drain race below) and the 250 ms drain wait did not
+   expire, then Done is on the wire, was written at a moment the client had agency, is the
+   last message on the wire, and everything before it is a RequestNext. *)
+Theorem C21_stop : forall limit p bud ls s,
+  1 <= limit -> limit + 1 <= sendq_cap ->
+  xrun limit (xinit p bud) ls = Some s ->
+  tp (k s) <> TNone -> client_stuck limit s = true ->
+  stopped_end s /\ (side_ok s = true -> timedout (k s) = false -> clean_end s).
+Proof.
+  intros limit p bud ls s L1 L2 HR NT ST.
+  pose proof (reach_run limit ls L1 _ _ (reach_init limit p bud) HR) as RS.
+  split; [apply (stuck_returned limit s L1 L2 RS NT ST)|].
+  intros SO TO. apply (stuck_clean limit s L1 L2 RS NT ST). apply good_of_side; assumption.
+Qed.
+Print Assumptions C21_stop.
+
+(* the queue condition also rules out the TryLock give-up: Stop always holds busyMutex *)
+Theorem C21_stop_holds_busy : forall limit p bud ls s,
+  1 <= limit -> limit + 1 <= sendq_cap ->
+  xrun limit (xinit p bud) ls = Some s -> gaveup (k s) = false.
+Proof.
+  intros limit p bud ls s L1 L2 HR.
+  destruct (reach_run limit ls L1 _ _ (reach_init limit p bud) HR) as (_ & _ & HQ).
+  destruct HQ as (_ & _ & _ & _ & _ & _ & _ & Q7). auto.
+Qed.
+
+(* safety at EVERY moment of every run under the side condition (not only at the end): Done
+   has not been written yet, or it was written with agency and nothing was written after it *)
+Theorem C21_stop_done_position : forall limit p bud ls s,
+  1 <= limit -> xrun limit (xinit p bud) ls = Some s ->
+  side_ok s = true -> timedout (k s) = false ->
+  ndone (msgs (written (e s))) = 0 \/
+  exists pre, written (e s) = pre ++ [(QDone, true)] /\ all_req pre.
+Proof.
+  intros limit p bud ls s L1 HR SO TO.
+  apply (done_position limit). apply (reach_run limit ls L1 _ _ (reach_init limit p bud) HR).
+  apply good_of_side; assumption.
+Qed.
+Print Assumptions C21_stop_done_position.
+
+(* sendLoop starts a batch (takes a first message with the token, no transitions queued) only
+   when the client has agency on the wire: every RequestNext written so far has been answered.
+   This is what the wire correspondence (check_wire) tests on the real connection. *)
+Theorem C21_batch_starts_with_agency : forall limit p bud ls s,
+  1 <= limit -> xrun limit (xinit p bud) ls = Some s ->
+  sp (e s) = SpHeld -> qtr (e s) = [] -> agency_now s = true.
+Proof.
+  intros limit p bud ls s L1 HR SH QT.
+  destruct (reach_run limit ls L1 _ _ (reach_init limit p bud) HR) as ((J1 & J2 & J3 & J4 & J5 & J6 & J7 & J8) & _ & _).
+  specialize (J2 SH). rewrite QT, J2 in J5. unfold sa in J5. cbn in J5.
+  pose proof (written_wire_le (e s)) as WL. unfold RI in J6. unfold agency_now. apply Nat.eqb_eq. lia.
+Qed.
+
+Definition upd_a : upd := RollForward 5 [] {| tslot := 9; thash := []; tblock := 3 |}.
+
+(* non-vacuity: limit 1, Stop() while the callback of the only reply is still running
+   (the client has agency): Done goes out alone, with agency, and the run ends cleanly *)
+Example C21_stop_nonvacuous :
+  exists s, xrun 1 (xinit false 1)
+    [XTakeTok; XDeq; XBatchEnd; XSegOut; XB (LSrvReply upd_a); XB LDeliver;
+     XStopCall; XStopBusy; XStopLife; XStopEnq; XTakeTok; XDeq; XBatchEnd; XSegOut; XStopDrained;
+     XStopUnbusy; XStopClose; XStopProto; XStopUnlife; XSendExit; XB (LCb upd_a); XB LPush; XRecvExit;
+     XSyncExit; XStopReturn] = Some s
+  /\ client_stuck 1 s = true /\ side_ok s = true /\ timedout (k s) = false
+  /\ wire (e s) = [(QReq, true); (QDone, true)] /\ tp (k s) = TReturned.
+Proof. eexists. split; [vm_compute; reflexivity|]. repeat split. Qed.
+
+(* known finding done-sent-without-agency as a theorem about the model: Stop() right after
+   Sync() (the first RequestNext still queued): sendLoop takes RequestNext with the token and
+   Done as its pipelined follower - Done is written while the request is unanswered.  Only
+   [enq_clean] fails. *)
+Theorem C21_stop_refuted_done_without_agency :
+  exists ls s, xrun 3 (xinit false 0) ls = Some s
+  /\ client_stuck 3 s = true /\ tp (k s) = TReturned
+  /\ gaveup (k s) = false /\ drain_clean (k s) = true /\ timedout (k s) = false /\ enq_clean (k s) = false
+  /\ wire (e s) = [(QReq, true); (QDone, false)].
+Proof.
+  exists [XStopCall; XStopBusy; XStopLife; XStopEnq; XTakeTok; XDeq; XDeq; XBatchEnd; XSegOut; XB LSrvAwait; XStopDrained;
+          XStopUnbusy; XStopClose; XStopProto; XStopUnlife; XSendExit; XRecvExit; XSyncExit; XStopReturn].
+  eexists. split; [vm_compute; reflexivity|]. repeat split.
+Qed.
+
+(* known finding stop-hangs-sendqueue-full as a theorem about the model: PipelineLimit 81, the
+   server answers the first request and then sits at the tip (AwaitReply).  syncLoop has queued
+   81 requests, one was written, 80 fill the queue; Stop() holds busyMutex and lifecycleMutex
+   and is blocked in SendMessage(Done); no client-side label is enabled - only a further
+   chain update from the server could move anything. *)
+Theorem C21_stop_refuted_sendqueue_full :
+  exists ls s, xrun 81 (xinit false 1) ls = Some s
+  /\ client_stuck 81 s = true /\ tp (k s) = TEnq /\ sbusy (k s) = true /\ budget s = 0
+  /\ length (sq (e s)) = sendq_cap.
+Proof.
+  exists ([XTakeTok; XDeq; XBatchEnd; XSegOut; XB (LSrvReply upd_a); XB LDeliver; XB (LCb upd_a); XB LPush; XB LTake;
+           XB LProc; XTakeTok; XB LSendReq; XDeq; XBatchEnd; XSegOut] ++ repeat (XB LSendReq) 80
+          ++ [XB LSendEnd; XB LSrvAwait; XB LDeliver; XStopCall; XStopBusy; XStopLife]).
+  eexists. split; [vm_compute; reflexivity|]. repeat split.
+Qed.
+
+(* a third way to violate the clause, found on the model (not observed by the harness: the
+   window is a few microseconds against a 2 ms poll): WaitSendQueueDrained tests
+   pendingSendBytes and the queue length, both already 0 once sendLoop has TAKEN Done; if
+   Stop() then closes stopChan before sendLoop has handed the segment to the muxer, sendLoop
+   returns on stopChan and Done never reaches the wire.  Only [drain_clean] fails. *)
+Theorem C21_stop_refuted_drain_race :
+  exists ls s, xrun 1 (xinit false 1) ls = Some s
+  /\ client_stuck 1 s = true /\ tp (k s) = TReturned
+  /\ gaveup (k s) = false /\ enq_clean (k s) = true /\ timedout (k s) = false /\ drain_clean (k s) = false
+  /\ wire (e s) = [(QReq, true)] /\ dropped (e s) = true.
+Proof.
+  exists [XTakeTok; XDeq; XBatchEnd; XSegOut; XB (LSrvReply upd_a); XB LDeliver;
+          XStopCall; XStopBusy; XStopLife; XStopEnq; XTakeTok; XDeq; XStopDrained;
+          XStopUnbusy; XStopClose; XStopProto; XStopUnlife; XSendExit; XB (LCb upd_a); XB LPush; XRecvExit;
+          XSyncExit; XStopReturn].
+  eexists. split; [vm_compute; reflexivity|]. repeat split.
+Qed.
+
+(* when the 250 ms drain wait expires (server silent at the tip with a request outstanding)
+   Stop() tears the protocol down without Done: nothing at all is written after that *)
+Example C21_stop_silent_at_tip :
+  exists s, xrun 1 (xinit false 0)
+    [XTakeTok; XDeq; XBatchEnd; XSegOut; XB LSrvAwait; XB LDeliver;
+     XStopCall; XStopBusy; XStopLife; XStopEnq; XStopDrainTimeout; XStopUnbusy; XStopClose; XStopProto; XStopUnlife;
+     XSendExit; XRecvExit; XSyncExit; XStopReturn] = Some s
+  /\ client_stuck 1 s = true /\ tp (k s) = TReturned /\ timedout (k s) = true /\ wire (e s) = [(QReq, true)].
+Proof. eexists. split; [vm_compute; reflexivity|]. repeat split. Qed.
